@@ -151,6 +151,7 @@ class HTTP(BaseComponent):
         # send HTTP response status line and headers
         res.prepare()
         self.fire(write(sock, b'%s%s' % (bytes(res), bytes(headers))))
+        res.started = True
 
         if req.method == 'HEAD':
             # no body; but the exchange is over like for any other response
@@ -482,9 +483,12 @@ class HTTP(BaseComponent):
         if res.done:
             return
 
-        if req.handled:
-            # the error response could not be sent either: give up instead of
-            # producing (and failing to send) error responses for ever
+        if req.handled or res.started:
+            # the error response could not be sent either, or the failed
+            # response is partly on the wire already (its body source raised
+            # after the header block was written): no other response can be
+            # sent for this request, closing is the only way to end it
+            res.done = True
             self.fire(close(req.sock))
             return
         req.handled = True
@@ -509,12 +513,30 @@ class HTTP(BaseComponent):
         - response_complete
         """
 
-    @handler('stream_success', 'stream_failure', 'stream_complete')
+    @handler('stream_failure')
+    def _on_stream_failure(self, estream, error):
+        """
+        The source of a streamed body failed after the header block (and
+        possibly part of the body) has been written: the message cannot be
+        completed any more, closing the connection is the only way left to
+        end it for the client.
+        """
+        res = estream.args[0]
+        sock = res.request.sock
+
+        if res.done:
+            return
+
+        res.done = True
+        if sock in self._clients:
+            del self._clients[sock]
+        self.fire(close(sock))
+
+    @handler('stream_success', 'stream_complete')
     def _on_stream_feedback(self, *args, **kwargs):
         """
         Dummy Event Handler for stream events
 
         - stream_success
-        - stream_failure
         - stream_complete
         """
